@@ -290,8 +290,8 @@ Proof.
   assert (Hmx : 0 <= mx <= 7) by (unfold mx, fit; destruct (eszx e >? bszx b) eqn:E; lia).
   destruct (resp_code_tests _ Hc) as [Hsig [Hgd [Hup [Hcont Hrq]]]].
   unfold handle. rewrite Hs, (wants_resp r Hc).
-  unfold handle_received. rewrite Hsig, Hgd, Hup. rewrite Hb. fold mx.
-  unfold process_received. rewrite Hgd, Hb.
+  unfold handle_received, handle_received_s; fold_pr. rewrite Hsig, Hgd, Hup. rewrite Hb. fold mx.
+  unfold process_received, process_received_s. rewrite Hgd, Hb.
   unfold get_sent_request. rewrite Hs.
   unfold observe_key, is_observe_response. rewrite Hobs. cbn [negb].
   fold cached. 
@@ -332,8 +332,8 @@ Proof.
   assert (Hrecv : (let '(e', o, d) := handle_received app e r in
                    match o with Out w => (e', w, d, 0) | Fail => (e', Some (entity_incomplete (mtok r)), d, 1) end)
                   = (e, None, [r], 0)).
-  { unfold handle_received. rewrite Hsig, Hgd, Hup, Hb.
-    unfold process_received. rewrite Hgd, Hb. cbn [andb]. rewrite Happ. reflexivity. }
+  { unfold handle_received, handle_received_s; fold_pr. rewrite Hsig, Hgd, Hup, Hb.
+    unfold process_received, process_received_s. rewrite Hgd, Hb. cbn [andb]. rewrite Happ. reflexivity. }
   unfold handle. rewrite (wants_resp r Hc). destruct (tget (sending e) (mtok r)); exact Hrecv.
 Qed.
 
@@ -347,8 +347,8 @@ Proof.
   intros Happ Hs Hr Hc Hobs Hb Hm Hn.
   destruct (resp_code_tests _ Hc) as [Hsig [Hgd [Hup [Hcont Hrq]]]].
   unfold handle. rewrite Hs, (wants_resp r Hc).
-  unfold handle_received. rewrite Hsig, Hgd, Hup, Hb.
-  unfold process_received. rewrite Hgd, Hb.
+  unfold handle_received, handle_received_s; fold_pr. rewrite Hsig, Hgd, Hup, Hb.
+  unfold process_received, process_received_s. rewrite Hgd, Hb.
   unfold get_sent_request. rewrite Hs.
   unfold observe_key, is_observe_response. rewrite Hobs. cbn [negb].
   rewrite Hr, Hm, Hn. cbn [Z.eqb negb]. rewrite Happ. reflexivity.
@@ -878,7 +878,7 @@ Section Get.
       end.
   Proof.
     unfold handle. cbn [init wb new_ep sending tget].
-    unfold handle_received. cbn [mcode mb2 mtok get_req eszx emax fit].
+    unfold handle_received, handle_received_s; fold_pr. cbn [mcode mb2 mtok get_req eszx emax fit].
     change ((GET =? 0) || ((225 <=? GET) && (GET <=? 229))) with false.
     change ((GET =? GET) || (GET =? DELETE)) with true. cbn [orb].
     fold tok. rewrite app_b_get.
